@@ -93,9 +93,9 @@ Definition touches_bview (o : op) : bool :=
 Lemma bview_frame s o : touches_bview o = false -> bview (fst (step s o)) = bview s.
 Proof.
   destruct o; cbn [touches_bview]; try discriminate; intros _; cbn [step]; unfold bview; try reflexivity.
-  - unfold do_add_label. destruct (node_live s n); [|reflexivity]. destruct (get_or_create (lab_names s) l).
+  - unfold do_add_label, do_add_label_pre. destruct (node_live s n); [|reflexivity]. destruct (get_or_create (lab_names s) l).
     destruct (mem z (match zget (node_labels s) n with Some x => x | None => [] end)); reflexivity.
-  - unfold do_remove_label. destruct (node_live s n); [|reflexivity]. destruct (find_pos l (lab_names s) 0); [|reflexivity].
+  - unfold do_remove_label, do_remove_label_pre. destruct (node_live s n); [|reflexivity]. destruct (find_pos l (lab_names s) 0); [|reflexivity].
     destruct (zget (node_labels s) n); [|reflexivity]. destruct (mem z l0); reflexivity.
   - unfold do_create_index. destruct (zget (pidx s) key); reflexivity.
   - unfold do_drop_index. destruct (zget (pidx s) key); reflexivity.
@@ -118,9 +118,9 @@ Proof.
       as (A1 & A2 & A3 & A4 & A5 & A6 & A7 & A8 & A9 & A10 & _). cbv zeta in *. congruence.
   - unfold do_create_edge. psimpl. destruct (get_or_create (ety_names s) ty). psimpl. reflexivity.
   - destruct (do_delete_edge_frame s e) as (A1 & A2 & A3 & A4 & A5 & A6 & A7 & A8 & A9 & A10 & _). cbv zeta in *. congruence.
-  - unfold do_add_label. destruct (node_live s n); [|reflexivity]. destruct (get_or_create (lab_names s) l).
+  - unfold do_add_label, do_add_label_pre. destruct (node_live s n); [|reflexivity]. destruct (get_or_create (lab_names s) l).
     destruct (mem z (match zget (node_labels s) n with Some x => x | None => [] end)); reflexivity.
-  - unfold do_remove_label. destruct (node_live s n); [|reflexivity]. destruct (find_pos l (lab_names s) 0); [|reflexivity].
+  - unfold do_remove_label, do_remove_label_pre. destruct (node_live s n); [|reflexivity]. destruct (find_pos l (lab_names s) 0); [|reflexivity].
     destruct (zget (node_labels s) n); [|reflexivity]. destruct (mem z l0); reflexivity.
   - unfold do_refresh_stats. destruct (stats_dirty s); reflexivity.
 Qed.
@@ -137,9 +137,9 @@ Proof.
   - unfold do_delete_node. psimpl. destruct (zget (nodes s) n) as [r|]; [|reflexivity].
     destruct (nrec_vis r (epoch s)); [|reflexivity]. psimpl.
     destruct (zget (node_labels s) n); psimpl; reflexivity.
-  - unfold do_add_label. destruct (node_live s n); [|reflexivity]. destruct (get_or_create (lab_names s) l).
+  - unfold do_add_label, do_add_label_pre. destruct (node_live s n); [|reflexivity]. destruct (get_or_create (lab_names s) l).
     destruct (mem z (match zget (node_labels s) n with Some x => x | None => [] end)); reflexivity.
-  - unfold do_remove_label. destruct (node_live s n); [|reflexivity]. destruct (find_pos l (lab_names s) 0); [|reflexivity].
+  - unfold do_remove_label, do_remove_label_pre. destruct (node_live s n); [|reflexivity]. destruct (find_pos l (lab_names s) 0); [|reflexivity].
     destruct (zget (node_labels s) n); [|reflexivity]. destruct (mem z l0); reflexivity.
   - unfold do_create_index. destruct (zget (pidx s) key); reflexivity.
   - unfold do_drop_index. destruct (zget (pidx s) key); reflexivity.
